@@ -413,3 +413,218 @@ Section Termination.
     destruct e as [ts|kids|trees|vs|c]; try (destruct (valid p _) eqn:Ev; [specialize (Hlt eq_refl)|]; lia).
   Qed.
 End Termination.
+
+(** * progress, and total correctness of the merger model *)
+Section Progress.
+  Context (accept : bool) (content_merge : list N -> option N).
+  Notation step := (step accept content_merge).
+  Notation root_step := (root_step accept content_merge).
+  Notation process_tree := (process_tree accept).
+  Notation work := (work accept).
+  Notation mdf := (merge_dir_full accept content_merge).
+
+  (** A directory record exists only while one of its entries is pending (mark_completed
+      schedules the write as soon as nothing is pending). *)
+  Fixpoint settled (e : etask) : Prop :=
+    match e with
+    | EDir kids =>
+        existsb (fun k => negb (is_done (snd k))) kids = true
+        /\ (fix go (l : list (N * etask)) : Prop :=
+              match l with [] => True | k :: t => settled (snd k) /\ go t end) kids
+    | _ => True
+    end.
+  Lemma settled_dir kids :
+    settled (EDir kids) <->
+    existsb (fun k => negb (is_done (snd k))) kids = true /\ Forall (fun k => settled (snd k)) kids.
+  Proof.
+    cbn [settled]. apply and_iff_compat_l. induction kids as [|k t IH]; [split; constructor|].
+    rewrite Forall_cons_iff, <- IH. tauto.
+  Qed.
+
+  Lemma forallb_false_existsb {A} (f : A -> bool) l :
+    forallb f l = false -> existsb (fun x => negb (f x)) l = true.
+  Proof.
+    induction l as [|x t IH]; [discriminate|]. cbn [forallb existsb].
+    destruct (f x); cbn [negb andb orb]; auto.
+  Qed.
+
+  Lemma settled_settle kids : Forall (fun k => settled (snd k)) kids -> settled (settle kids).
+  Proof.
+    intros H. unfold TreeMerger.settle. destruct (forallb _ kids) eqn:E; [exact I|].
+    apply settled_dir. split; [now apply forallb_false_existsb|assumption].
+  Qed.
+
+  Lemma settled_process ts : settled (process_tree ts).
+  Proof.
+    rewrite process_tree_eq. apply settled_settle, Forall_forall. intros k Hk.
+    apply in_map_iff in Hk as (n & <- & _). unfold kid_of. cbn [snd].
+    destruct (tm accept (map (lookup n) ts)); [exact I|]. destruct (is_tree _); exact I.
+  Qed.
+
+  Lemma step_settled : forall pick e, settled e -> settled (step pick e).
+  Proof.
+    induction pick as [|n rest IH]; intros e Hs.
+    - destruct e; cbn [TreeMerger.step]; auto; try exact I. apply settled_process.
+    - destruct e as [ts|kids|trees|vs|c]; cbn [TreeMerger.step]; auto.
+      apply settled_settle. apply settled_dir in Hs as [_ Hk]. rewrite Forall_forall in *.
+      intros k Hin. apply in_map_iff in Hin as (k0 & <- & Hk0).
+      destruct (N.eqb (fst k0) n); [cbn [snd]; apply IH, Hk, Hk0|now apply Hk].
+  Qed.
+
+  (** [in_flight] finds an item in flight whenever the task is not completed. *)
+  Lemma in_flight_sound : forall e p, in_flight e = Some p -> valid p e = true.
+  Proof.
+    induction e as [ts|kids IH|trees|vs|c] using etask_ind_nested; intros p H; cbn [in_flight] in H;
+      try (injection H as <-; reflexivity); [|discriminate].
+    induction kids as [|k t IHt]; [discriminate|].
+    inversion IH as [|? ? Hk Ht]; subst.
+    destruct (in_flight (snd k)) as [q|] eqn:E.
+    - injection H as <-. cbn [valid existsb]. rewrite N.eqb_refl, (Hk q eq_refl). reflexivity.
+    - specialize (IHt Ht H). destruct p as [|n q]; [discriminate|]. cbn [valid existsb] in *.
+      rewrite IHt. apply Bool.orb_true_r.
+  Qed.
+
+  Lemma in_flight_complete : forall e, settled e -> is_done e = false -> in_flight e <> None.
+  Proof.
+    induction e as [ts|kids IH|trees|vs|c] using etask_ind_nested; intros Hs Hd; cbn [in_flight];
+      try discriminate.
+    apply settled_dir in Hs as [Hex Hk]. apply existsb_exists in Hex as (k0 & Hin & Hnd).
+    apply Bool.negb_true_iff in Hnd.
+    induction kids as [|k t IHt]; [contradiction|].
+    inversion IH as [|? ? Hk1 Ht]; subst. inversion Hk as [|? ? Hs1 Hst]; subst.
+    destruct (in_flight (snd k)) as [q|] eqn:E; [discriminate|].
+    destruct Hin as [<-|Hin]; [exfalso; now apply (Hk1 Hs1 Hnd)|]. now apply IHt.
+  Qed.
+
+  (** The states the root task goes through. *)
+  Definition root_ok (f : nat) (e : etask) : Prop :=
+    depth_ok f e /\ settled e /\ match e with EDone _ | EFile _ => False | _ => True end.
+
+  Lemma depth_ok_odd : forall e f, depth_ok f e -> odd_task e.
+  Proof.
+    induction e as [ts|kids IH|trees|vs|c] using etask_ind_nested; intros f H; try exact I.
+    - now destruct H.
+    - apply odd_dir. apply depth_ok_dir in H. rewrite Forall_forall in *. intros k Hk.
+      apply (IH k Hk (Nat.pred f)), H, Hk.
+  Qed.
+
+  Lemma root_step_ok f e p : root_ok f e -> root_ok f (root_step e p).
+  Proof.
+    intros (Hd & Hs & Hsh). unfold root_ok.
+    destruct (root_step_preserves accept content_merge e p (depth_ok_odd e f Hd) Hsh) as (_ & _ & Hsh').
+    repeat split; auto.
+    - destruct e; cbn [TreeMerger.root_step]; auto; now apply step_work.
+    - destruct e; cbn [TreeMerger.root_step]; auto; now apply step_settled.
+  Qed.
+
+  (** C07 progress: a merge that has not returned has an item in flight. *)
+  Theorem progress f e : root_ok f e -> (forall trees, e <> EWritten trees) ->
+    exists p, in_flight e = Some p /\ valid p e = true.
+  Proof.
+    intros (Hd & Hs & Hsh) Hnw.
+    assert (Hnd : is_done e = false) by (destruct e; try reflexivity; contradiction).
+    destruct (in_flight e) as [p|] eqn:E; [|exfalso; now apply (in_flight_complete e Hs Hnd)].
+    exists p. split; [reflexivity|now apply in_flight_sound].
+  Qed.
+
+  Lemma fold_written trees schedule : fold_left root_step schedule (EWritten trees) = EWritten trees.
+  Proof. induction schedule as [|p t IH]; [reflexivity|]. cbn [fold_left TreeMerger.root_step]. exact IH. Qed.
+
+  (** A schedule that never idles: each step completes an item in flight (until the merge
+      has returned). *)
+  Fixpoint busy (e : etask) (schedule : list (list N)) : Prop :=
+    match schedule with
+    | [] => True
+    | p :: rest =>
+        match e with EWritten _ => True | _ => valid p e = true end /\ busy (root_step e p) rest
+    end.
+
+  Lemma read_work_ge f ts : (3 <= read_work accept f ts)%nat.
+  Proof. destruct f; cbn [read_work]; lia. Qed.
+
+  Theorem busy_returns : forall schedule f e, root_ok f e -> busy e schedule ->
+    (work f e <= S (length schedule))%nat ->
+    exists trees, fold_left root_step schedule e = EWritten trees.
+  Proof.
+    induction schedule as [|p rest IH]; intros f e Hok Hb Hw.
+    - destruct Hok as (Hd & Hs & Hsh). cbn [fold_left length] in *.
+      destruct e as [ts|kids|trees|vs|c]; try contradiction; [| |eauto].
+      + change (work f (ERead ts)) with (read_work accept f ts) in Hw. pose proof (read_work_ge f ts). lia.
+      + rewrite work_dir in Hw. lia.
+    - cbn [fold_left]. destruct Hb as [Hv Hb].
+      destruct e as [ts|kids|trees|vs|c]; try (exfalso; exact (proj2 (proj2 Hok)));
+        [| |exists trees; apply fold_written].
+      all: apply (IH f); [now apply root_step_ok|assumption|].
+      all: cbn [TreeMerger.root_step length] in *.
+      all: destruct Hok as (Hd & _); destruct (step_work accept content_merge p f _ Hd) as (_ & _ & Hlt);
+        specialize (Hlt Hv); lia.
+  Qed.
+
+  (** The scheduler that always completes the first item in flight. *)
+  Fixpoint canonical (k : nat) (e : etask) : list (list N) :=
+    match k with
+    | O => []
+    | S k' =>
+        match e with
+        | EWritten _ => []
+        | _ => match in_flight e with
+               | Some p => p :: canonical k' (step p e)
+               | None => []
+               end
+        end
+    end.
+
+  Lemma canonical_busy : forall k f e, root_ok f e -> busy e (canonical k e).
+  Proof.
+    induction k as [|k IH]; intros f e Hok; [exact I|]. cbn [canonical].
+    destruct e as [ts|kids|trees|vs|c]; try (exfalso; exact (proj2 (proj2 Hok))); [| |exact I].
+    all: match goal with |- busy ?e _ =>
+           destruct (progress f e Hok ltac:(intros ? H0; discriminate H0)) as (p & Hp & Hv) end.
+    all: rewrite Hp; cbn [busy]; split; [assumption|].
+    all: apply (IH f); exact (root_step_ok f _ p Hok).
+  Qed.
+
+  Lemma canonical_length : forall k f e, root_ok f e -> (work f e <= S k)%nat ->
+    exists trees, fold_left root_step (canonical k e) e = EWritten trees.
+  Proof.
+    induction k as [|k IH]; intros f e Hok Hw.
+    - apply (busy_returns [] f e Hok I). cbn [length]. exact Hw.
+    - cbn [canonical].
+      destruct e as [ts|kids|trees|vs|c]; try (exfalso; exact (proj2 (proj2 Hok)));
+        [| |exists trees; reflexivity].
+      all: match goal with |- exists _, fold_left _ _ ?e = _ =>
+             destruct (progress f e Hok ltac:(intros ? H0; discriminate H0)) as (p & Hp & Hv) end.
+      all: rewrite Hp; cbn [fold_left TreeMerger.root_step].
+      all: apply (IH f); [exact (root_step_ok f _ p Hok)|].
+      all: destruct Hok as (Hd & _); destruct (step_work accept content_merge p f _ Hd) as (_ & _ & Hlt);
+        specialize (Hlt Hv); lia.
+  Qed.
+
+  Lemma root_ok_init ts : Nat.odd (length ts) = true -> root_ok (max_tdepth ts) (ERead ts).
+  Proof. intros H. repeat split; auto. Qed.
+
+  (** Total correctness of the concurrent merger model: every schedule that never idles and
+      is long enough returns the recursive directory merge ... *)
+  Theorem busy_schedule_total (ts : list tree) (schedule : list (list N)) :
+    Nat.odd (length ts) = true -> busy (ERead ts) schedule ->
+    (read_work accept (max_tdepth ts) ts <= S (length schedule))%nat ->
+    run accept content_merge ts schedule = EWritten (mdf ts).
+  Proof.
+    intros Hodd Hb Hw.
+    destruct (busy_returns schedule (max_tdepth ts) (ERead ts) (root_ok_init ts Hodd) Hb Hw) as [trees Ht].
+    unfold run. rewrite Ht. f_equal. now apply (schedule_independent accept content_merge ts schedule).
+  Qed.
+
+  (** ... and such schedules exist: completing the first item in flight, [read_work] times. *)
+  Theorem canonical_schedule_total (ts : list tree) : Nat.odd (length ts) = true ->
+    let schedule := canonical (read_work accept (max_tdepth ts) ts) (ERead ts) in
+    busy (ERead ts) schedule /\ run accept content_merge ts schedule = EWritten (mdf ts).
+  Proof.
+    intros Hodd schedule. pose proof (root_ok_init ts Hodd) as Hok. split.
+    - now apply (canonical_busy _ (max_tdepth ts)).
+    - destruct (canonical_length (read_work accept (max_tdepth ts) ts) (max_tdepth ts) (ERead ts) Hok)
+        as [trees Ht]; [change (work (max_tdepth ts) (ERead ts)) with (read_work accept (max_tdepth ts) ts); lia|].
+      unfold run. fold schedule in Ht. rewrite Ht. f_equal.
+      now apply (schedule_independent accept content_merge ts schedule).
+  Qed.
+End Progress.
